@@ -94,14 +94,7 @@ pub fn first_missing(w: &World, node: usize, g: usize, wc: &WinningChain) -> Opt
 /// on the first winning commit it failed to apply and on what happened when that commit was
 /// first handed to it.
 pub fn known_trigger(w: &World, _cfg: &RunCfg, node: usize, g: usize, wc: &WinningChain) -> Option<String> {
-    // KF-C01-5: the node is not an admin, had proposals queued and called self_update: the
-    // commit covers the queued proposals, is refused by everyone else as unauthorised, but its
-    // author applies it and leaves the common chain
-    for c in w.events.iter().filter(|e| e.kind == EvKind::Commit && e.g == g && e.creator == node && e.refs_proposals) {
-        if !commit_is_authorised(w, c) && w.effective[node].contains(&c.origin) {
-            return Some("KF-C01-5".into());
-        }
-    }
+    // (KF-C01-5, a non-admin's self_update sweeping the proposal queue, was repaired by 6270f5f)
     // KF-C01-6: the node rolled back for a "better" commit that it then refused (unauthorised,
     // or covering a proposal it does not hold): the rollback is not undone, the commit applied
     // before is epoch-invalidated, the node is stuck at the fork point
